@@ -184,7 +184,7 @@ pub fn plan(prop: &str) -> Option<Plan> {
         )},
         "C17" => p(
             "C17",
-            vec![("wire", 4, false), ("inputs", 1, false), ("faults", 1, false)],
+            vec![("wire", 4, false), ("inputs", 1, false), ("faults", 1, false), ("flood", 1, false)],
             vec![],
             vec!["tramp.delivered", "c13.nontrampoline-delivered"],
             "a run is non-trivial if hook calls were delivered (chunked) and answers parsed from the output stream",
